@@ -70,6 +70,139 @@ private def readOutSlice : List String → Option (Option (List OutputV) × List
     | none => none
   | _ => none
 
+/-! ### a JSON text reader (driver only: bytes → tree is encoding/json's job and is not part of
+     the proofs; this reader exists so that the harness can ask the tree DECODERS of the model
+     whether they accept a document).  Input is assumed to be valid JSON (the harness checks
+     with json.Valid).  A number that is not a plain integer literal becomes the marker
+     `[null, "<literal>"]`, which no decoder of the model accepts where Go expects an integer
+     or a string. -/
+
+private def isWs (c : UInt8) : Bool := c == 32 || c == 9 || c == 10 || c == 13
+
+private def skipWs : List UInt8 → List UInt8
+  | c :: cs => if isWs c then skipWs cs else c :: cs
+  | [] => []
+
+private def hex4Val (a b c d : UInt8) : Option Nat :=
+  match hexVal a, hexVal b, hexVal c, hexVal d with
+  | some a, some b, some c, some d => some (((a * 16 + b) * 16 + c) * 16 + d)
+  | _, _, _, _ => none
+
+/-- string body after the opening quote; `\uXXXX` is decoded to UTF-8 (surrogate pairs and
+    lone surrogates as U+FFFD, which is enough for accept/reject) -/
+private def readStr : Nat → List UInt8 → List UInt8 → Option (List UInt8 × List UInt8)
+  | 0, _, _ => none
+  | _ + 1, [], _ => none
+  | f + 1, c :: cs, acc =>
+    if c == 34 then some (acc.reverse, cs)
+    else if c == 92 then
+      match cs with
+      | 117 :: a :: b :: c2 :: d :: r =>
+        match hex4Val a b c2 d with
+        | some v => readStr f r ((encodeRune (if 0xD800 ≤ v ∧ v < 0xE000 then 0xFFFD else v)).reverse ++ acc)
+        | none => none
+      | e :: r =>
+        let x : UInt8 := if e == 110 then 10 else if e == 116 then 9 else if e == 114 then 13 else if e == 98 then 8
+          else if e == 102 then 12 else e
+        readStr f r (x :: acc)
+      | [] => none
+    else readStr f cs (c :: acc)
+
+private def isNumCh (c : UInt8) : Bool := isDigit c || c == 45 || c == 43 || c == 46 || c == 101 || c == 69
+
+private def takeNumLit : List UInt8 → List UInt8 × List UInt8
+  | c :: cs => if isNumCh c then let (a, b) := takeNumLit cs; (c :: a, b) else ([], c :: cs)
+  | [] => ([], [])
+
+private def numOfLit (l : List UInt8) : Json :=
+  let plain := l.all (fun c => isDigit c || c == 45)
+  if plain then
+    match l with
+    | 45 :: ds => match parseDigits ds 0 with
+      | some n => .num (-(n : Int))
+      | none => .arr [.null, .str l]
+    | ds => match parseDigits ds 0 with
+      | some n => .num n
+      | none => .arr [.null, .str l]
+  else .arr [.null, .str l]
+
+mutual
+  private def readVal : Nat → List UInt8 → Option (Json × List UInt8)
+    | 0, _ => none
+    | f + 1, s =>
+      match skipWs s with
+      | 123 :: r => readMembers f (skipWs r) []
+      | 91 :: r => readElems f (skipWs r) []
+      | 34 :: r => (readStr (r.length + 1) r []).map (fun (x, r) => (.str x, r))
+      | 116 :: 114 :: 117 :: 101 :: r => some (.bool true, r)
+      | 102 :: 97 :: 108 :: 115 :: 101 :: r => some (.bool false, r)
+      | 110 :: 117 :: 108 :: 108 :: r => some (.null, r)
+      | c :: r =>
+        if isNumCh c then let (l, r') := takeNumLit (c :: r); some (numOfLit l, r') else none
+      | [] => none
+  private def readElems : Nat → List UInt8 → List Json → Option (Json × List UInt8)
+    | 0, _, _ => none
+    | f + 1, s, acc =>
+      match s with
+      | 93 :: r => some (.arr acc.reverse, r)
+      | _ =>
+        match readVal f s with
+        | some (v, r) =>
+          match skipWs r with
+          | 44 :: r => readElems f (skipWs r) (v :: acc)
+          | 93 :: r => some (.arr (v :: acc).reverse, r)
+          | _ => none
+        | none => none
+  private def readMembers : Nat → List UInt8 → List (Txt × Json) → Option (Json × List UInt8)
+    | 0, _, _ => none
+    | f + 1, s, acc =>
+      match s with
+      | 125 :: r => some (.obj acc.reverse, r)
+      | 34 :: r =>
+        match readStr (r.length + 1) r [] with
+        | some (k, r) =>
+          match skipWs r with
+          | 58 :: r =>
+            match readVal f r with
+            | some (v, r) =>
+              match skipWs r with
+              | 44 :: r => readMembers f (skipWs r) ((k, v) :: acc)
+              | 125 :: r => some (.obj ((k, v) :: acc).reverse, r)
+              | _ => none
+            | none => none
+          | _ => none
+        | none => none
+      | _ => none
+end
+
+def textParseJson (s : List UInt8) : Option Json :=
+  match readVal (s.length + 2) s with
+  | some (j, r) => if (skipWs r).isEmpty then some j else none
+  | none => none
+
+private def yes {α : Type} (o : Option α) : String := if o.isSome then "ok" else "err"
+
+private def decHash (j : Json) : Option (List UInt8) := toHex 32 j
+
+/-- accept / reject of the model's tree decoder for a document -/
+def jsonParseOp (typ : String) (doc : List UInt8) : String :=
+  match textParseJson doc with
+  | none => "bad-json"
+  | some j =>
+    match typ with
+    | "ci" => yes (ciOfTree j)
+    | "work" => yes (workOfTree j)
+    | "ver" => yes (versionOfTree j)
+    | "acc" => yes (accOfTree ([] : List UInt8) decHash j)
+    | "sp" => yes (spOfTree j)
+    | "pol" => yes (policyOfTree hashBytes (doc.length + 1) j)
+    | "sat" => yes (satisfiedOfTree hashBytes (doc.length + 1) j)
+    | "rev" => yes (revisionOfTree hashBytes j)
+    | "input" => yes (inputOfTree j)
+    | "upd" => yes (applyOfTree decHash ([] : List UInt8) j)
+    | "rupd" => yes (revertOfTree decHash ([] : List UInt8) j)
+    | _ => "bad-op"
+
 def jsonOp (args : List String) : String :=
   match args with
   | ["ci", h, id] => match h.toNat?, textUnhexArg id with
@@ -124,6 +257,12 @@ def jsonOp (args : List String) : String :=
       | some (upd, []) => out (revertToTree encHash [] ⟨upd, new⟩)
       | _ => "bad-op"
     | _, _ => "bad-op"
+  | [op, doc] =>
+    if op.startsWith "parse." then
+      match textUnhexArg doc with
+      | some d => jsonParseOp (op.drop 6).toString d
+      | none => "bad-op"
+    else "bad-op"
   | ["splice", kind, body] =>
     -- the diff's resolution text for a body given as its own JSON text: only the splice is modelled
     match textUnhexArg body with
